@@ -549,6 +549,23 @@ def bi_map_err(it, fn, args, path, body, blk, depth):
     raise Unsupported("map_err on %r" % (v,))
 
 
+def bi_result_map(it, fn, args, path, body, blk, depth):
+    v = args[0]
+    if v[0] == "choice":
+        out = []
+        for alt in v[2]:
+            p2 = path.fork()
+            p2.assume[v[1]] = _short(alt)
+            out.extend(bi_result_map(it, fn, [alt, args[1]], p2, body, blk, depth))
+        return out
+    if v[0] == "enum" and v[1] == RESULT:
+        if v[2] == "Err":
+            return [(path, v)]
+        res = it.call_closure(args[1], [v[3][0]], path, depth)
+        return [(p, ok(x)) for p, x in res]
+    raise Unsupported("Result::map on %r" % (v,))
+
+
 def bi_option_map(it, fn, args, path, body, blk, depth):
     v = args[0]
     if v[0] == "enum" and v[1] == OPTION:
@@ -621,5 +638,6 @@ DEFAULT_BUILTINS = {
     "std::result::Result::<T, E>::is_ok": bi_is_ok,
     "std::result::Result::<T, E>::is_err": bi_is_err,
     "std::result::Result::<T, E>::map_err": bi_map_err,
+    "std::result::Result::<T, E>::map": bi_result_map,
     "core::ops::deref::Deref::deref": lambda it, fn, a, p, b, k, d: [(p, ("ref", _peel(a[0])))],
 }
